@@ -105,6 +105,18 @@ CLAIMS = {
   "parameter passed through the Lean conversion check at 53 bits resp. the working precision (64-256).",
   COMMON_NOTE + "An unnamed objective (NULL) is given the generated default name by QScopy_prob; that is not counted as a difference. Doubles outside 2^±900 are not generated.",
   "DESIGN.md C16", "Lean 4 proof over a store-of-objects model and a rounding check + model/implementation correspondence check"),
+ "C19": ("proof",
+  "Lean theorems over a model of the solution file (sections of 'name = value' entries of the non-zero components) and of esolver's file-type decision: with distinct names, reading "
+  "a section back by name (absent = 0) returns exactly the vector that was written (decode_encode, by induction over the name list); an entry is listed iff it is a non-zero "
+  "component under its own name (entries_exact); -L always selects the LP reader. Tied to /repo: the real esolver binary (sanitized build of the working tree) is run on named problems "
+  "written as LP / MPS text in plain / gz / bz2 containers with name shapes (upper case, dotted, no extension, -L with a foreign extension) and the option product "
+  "-O name[.gz|.bz2], -p, -d, -S, -P, -b, -B: exit status 0; status line equal to what QSexact_solver returns on the same file under the same settings (and compared with a certified "
+  "reference classification); OPTIMAL files parsed, every section read back through the Lean decodeSec and the rebuilt x / pi handed to the proved certOK (C01/C03) with value, slacks "
+  "and reduced costs compared; a basis written with -b fed back with -B (exit 0, same status and value); ftypeOf compared with the reader esolver actually chose; unreadable and "
+  "malformed files (missing, empty, garbage, truncated, wrong container, directory, LP as MPS and vice versa): non-zero exit and no crash.",
+  COMMON_NOTE + "esolver is run with -m 2^46 because its default 4 GB address-space limit cannot hold the sanitizer runtime. Problem text comes from the library's own writers (C08/C09). "
+  "The text layer of the solution file (splitting lines at ' = ') is python, compared structurally; exit code and option parsing are observed, not modelled.",
+  "DESIGN.md C19", "Lean 4 proof of the solution-file codec + model/implementation correspondence check on the real binary"),
  "C03": ("proof",
   "Partial by nature. Proved in Lean: soundness of the three certificate checkers (optimality, Farkas, unbounded ray), mutual exclusivity of the three "
   "classes and uniqueness of the certified value - so the 'mathematical truth' of an LP is well defined by whichever certificate exists - and the "
